@@ -609,6 +609,9 @@ void h_insert(void) {
   _Bool present = q < hi(b) && in_key[q] == in_k;
   if (!present) { exp_ins = 1; exp_ins_bucket = b; exp_ins_at = q; }
   in_which = nondet_uint(); XV_ASSUME(in_which <= 4);
+#ifdef XV_ONLY_WHICH
+  in_which = XV_ONLY_WHICH;          /* one entry point per run (thorough cross-check with the real find inlined) */
+#endif
   struct pair_ib r; struct accessor acc; _Bool have_it = 1, lazy = 0; val_t v_expected = in_v;
   r.first = xv_it_blank(); r.second = nondet_bool(); acc.guard = 0;
   if (in_which == 0) { r.second = hmm_emplace(&M, in_k, in_v); have_it = 0; }
@@ -640,8 +643,10 @@ void h_insert(void) {
   }
   XV_OBL("hmm.insert.iff_absent", post_lists_ok());        /* exact list: sorted position, nothing else moved */
   XV_OBL("hmm.insert.iff_absent", post_payload_ok() && post_retired_ok());
+#ifndef XV_ONLY_WHICH
   if (in_which == 0) XV_CANARY("insert.emplace"); if (in_which == 1) XV_CANARY("insert.emplace_or_get"); if (in_which == 2) XV_CANARY("insert.get_or_emplace");
   if (in_which == 3) XV_CANARY("insert.get_or_emplace_lazy"); if (in_which == 4) XV_CANARY("insert.subscript");
+#endif
 }
 
 /* ---- erase(key) ----------------------------------------------------------------------------------------------------------------- */
